@@ -92,6 +92,8 @@ def ao_eval(body, e):
     while e[0] == "un" and e[1] == "Not":
         neg = not neg
         e = e[2]
+    if _is_set_payload(e):
+        return not neg
     if e[0] == "call":
         m = re.search(r"PartialEq(>)?::(eq|ne)$", e[1])
         if m and len(e[2]) == 2:
@@ -183,6 +185,11 @@ def compute_ao_helpers(prog, rounds=3):
     return sorted(_AO_HELPERS)
 
 
+def _is_set_payload(e):
+    """the bool inside `set_append_only: Option<bool>` read through the Some variant"""
+    return isinstance(e, tuple) and e and e[0] in ("path", "proj") and len(e) > 3 and len(e[2]) >= 2 and e[2][-2] == "set_append_only" and e[2][-1] == "0" and list(e[3])[-1:] == ["Some"]
+
+
 def is_not_disabling_test(body, bb):
     """switch on `<..>.set_append_only != Some(false)` -> (true_target, false_target)"""
     t = body.term(bb)
@@ -193,6 +200,13 @@ def is_not_disabling_test(body, bb):
     while e[0] == "un" and e[1] == "Not":
         neg = not neg
         e = e[2]
+    if _is_set_payload(e):
+        # `matches!(opts.set_append_only, Some(false))` form: the payload of Some(..) is tested; under the assumption
+        # set_append_only != Some(false) it is true wherever it exists
+        zero = [x for v, x in t["targets"] if v == "0"]
+        if not zero or t.get("discr_ty") != "bool":
+            return None
+        return (t["otherwise"], zero[0]) if not neg else (zero[0], t["otherwise"])
     if e[0] != "call":
         return None
     m = re.search(r"PartialEq(>)?::(eq|ne)$", e[1])
